@@ -391,6 +391,9 @@ Linear_System<Row>::remove_space_dimensions(const Variables_Set& vars) {
 
   space_dimension_ -= vars.size();
 
+  // Removing coefficients may change the relative order of the rows.
+  sorted = false;
+
   PPL_ASSERT(OK());
 }
 
